@@ -98,6 +98,10 @@ func stateDescriptio(s *Scanner, c byte) *jerr.JApiError {
 }
 
 func stateDescriptionTextBeginStarter(s *Scanner, c byte) *jerr.JApiError {
+	if c == '\n' && s.curIndex >= 1 && s.data.Byte(s.curIndex-1) == '\r' {
+		// the second byte of the CRLF that ends the keyword line: the text begins after it
+		return nil
+	}
 	s.found(TextBegin)
 	s.step = stateDescriptionTextBegin
 	return stateDescriptionTextBegin(s, c)
